@@ -154,7 +154,9 @@ def run(ctx):
     for k, f in fb.fns.items():
         for b, c in f.calls():
             if (c.get("f") or "") == DATA + "::resize":
-                if f.root in RESIZE:
+                if len(c["args"]) >= 2 and C.eval_const(f, c["args"][1]) == 0:
+                    ctx.ok("C02.R2", "resize caller " + f.root, "resize(0) (evaluated constant): discards the data, len <= 65536 trivially", f.loc(b))
+                elif f.root in RESIZE:
                     ctx.ok("C02.R2", "resize caller " + f.root, "tabled: " + RESIZE[f.root], f.loc(b))
                 else:
                     ctx.violation("C02.R2", "C02.R2/resize-caller/" + f.root,
